@@ -744,8 +744,10 @@ class Oracle:
                               'object %d carries serial #%s, expected #%s after %r' % (i, r['serial'], want, op))
 
     def store_phase_failure(self):
+        """the failed commit failed while the connection was storing objects: a conflict (raised by
+        store) or the injected fault of the j-th store"""
         f = self.lastfail
-        return (not f) or f[0] in ('store',) or True if self.lastkind == 'Conflict' else bool(f and f[0] == 'store')
+        return self.lastkind == 'Conflict' or (self.lastkind == 'Injected' and bool(f) and f[0] == 'store')
 
 
 def judge(case, real, pid):
